@@ -79,9 +79,9 @@ theorem RowOf.append {hs hs' : List (List S)} {i : Nat} {row row' : List S} (h :
   simp [RowOf] at *; rw [h, h']
 
 /-- the layer × direction loop on a batch is, row by row, the same loop on single sequences -/
-theorem layersLoop_refines (cfg : Cfg V S)
+theorem layersLoop_refines (cfg : Cfg V S) (cast : S → S)
     (layerFn : (V → S → S) → List S → List (List V) → Bool → Option (List (List S) × List S))
-    (B : Nat) (sh : List Nat) (hL : LayerRefines B sh layerFn) (bidir : Bool)
+    (B : Nat) (sh : List Nat) (hL : LayerRefines cast B sh layerFn) (bidir : Bool)
     (cells : List (V → S → S)) (h0s : List (List S)) (hh : ∀ h ∈ h0s, h.length = B) :
     ∀ (n l : Nat) (input : List (List V)) (acc : List (List S)),
       input.map List.length = sh →
@@ -92,7 +92,7 @@ theorem layersLoop_refines (cfg : Cfg V S)
         hs.length = acc.length + (if bidir then 2 else 1) * n ∧
         ((∀ a ∈ acc, a.length = B) → ∀ a ∈ hs, a.length = B) ∧
         ∀ i s0s accI, RowOf h0s i s0s → RowOf acc i accI →
-          ∃ so sf, specLoop cfg bidir cells s0s n l (seqOf input i) accI = some (so, sf) ∧
+          ∃ so sf, specLoop cfg cast bidir cells s0s n l (seqOf input i) accI = some (so, sf) ∧
             seqOf o i = so ∧ RowOf hs i sf := by
   intro n
   induction n with
@@ -125,7 +125,7 @@ theorem layersLoop_refines (cfg : Cfg V S)
       · intro i s0s accI hr0 hracc
         obtain ⟨s0, hs0i, hrow0⟩ := hr0.get hs0
         obtain ⟨hseq, hlast⟩ := hrow i s0 hrow0
-        have hracc' : RowOf (acc ++ [hl0]) i (accI ++ [(specDir cells[l] s0 (seqOf input i) false).2]) := by
+        have hracc' : RowOf (acc ++ [hl0]) i (accI ++ [cast (specDir cells[l] s0 (seqOf input i) false).2]) := by
           apply hracc.append; simp [RowOf, hlast]
         obtain ⟨so, sf, hsl, hso, hsf⟩ := hspec i s0s _ hr0 hracc'
         refine ⟨so, sf, ?_, hso, hsf⟩
@@ -165,8 +165,8 @@ theorem layersLoop_refines (cfg : Cfg V S)
         obtain ⟨hseq0, hlast0⟩ := hrow0 i s0 hr00
         obtain ⟨hseq1, hlast1⟩ := hrow1 i s1 hr01
         have hracc' : RowOf (acc ++ [hl0, hl1]) i
-            (accI ++ [(specDir cells[2 * l] s0 (seqOf input i) false).2,
-                      (specDir cells[2 * l + 1] s1 (seqOf input i) true).2]) := by
+            (accI ++ [cast (specDir cells[2 * l] s0 (seqOf input i) false).2,
+                      cast (specDir cells[2 * l + 1] s1 (seqOf input i) true).2]) := by
           apply hracc.append; simp [RowOf, hlast0, hlast1]
         obtain ⟨so, sf, hsl, hso, hsf⟩ := hspec i s0s _ hr0 hracc'
         refine ⟨so, sf, ?_, hso, hsf⟩
